@@ -20,6 +20,9 @@ CHECKS = {
  'C15': dict(cat='model_checking', design='5/C15', technique='TLA+ spec of RFC 6902 as an atomic function plus an implementation-shaped undo-log machine; TLC proves refinement in bound, enumerates (document, patch) cases replayed through apply_patch, and validates recorded from_diff patches as traces',
    text='TLC (1) model-checks that the undo-log machine transcribed from apply_patch/operation_unwinder refines the atomic RFC 6902 Apply for every (document, patch) in bound, (2) enumerates every such pair with the predicted outcome, replayed through both apply_patch overloads for json and ojson with the atomicity requirement on failure, and (3) validates every patch recorded from from_diff with the spec Apply (Trace_C15).',
    note='Bounded: patches of up to 2 (3 in thorough) operations over 8 documents and the stated path/value sets; diff law over all pairs of a 119/150-document universe. Whole-document self-move excluded.'),
+ 'C09': dict(cat='model_checking', design='5/C09', technique='TLA+ Container model (one action per mutating operation, json/ojson ordering, moved-from unspecified); TLC checks model invariants and emits one conformance test per transition; relational laws stated in TLA+ and checked by TLC trace validation on recorded operator outcomes',
+   text='(a) TLC explores the Container model (3 slots, 7 literal kinds, 3 keys) and emits every transition with a witness history and the expected state of every slot; the harness replays each history on real json/ojson values and compares projections, lookups and copies. (b) For all ordered pairs of 54 value descriptors and all integer conversions the harness records what ==, !=, <, <=, >, >=, dump, is<T>, as<T> return; Trace_C09 validates the laws of ValueLaws.tla (reflexive, symmetric, agreement with ordering and serialization, is=>as exact).',
+   note='Histories up to 4 (quick) / 5 (thorough) operations. Cross-kind ordering itself is not predicted, only the laws the property states; NaN is exempt from the order laws.'),
 }
 NA = {}
 
